@@ -257,6 +257,7 @@ var c04Failing = []string{"down", "down", "down", "status", "status", "status", 
 // ---- generated inputs -------------------------------------------------------------
 
 type c04Authn struct {
+	Proto    int    `json:"proto"`            // index of the prototype this step refers to; what is configured in the prototype is the same for all steps naming it
 	Type     string `json:"type"`             // anonymous unauthorized basic_auth jwt oauth2_introspection generic
 	Remote   string `json:"remote,omitempty"` // up down status garbage slow | sw (behaviour given per request)
 	Lifespan bool   `json:"lifespan,omitempty"`
@@ -292,14 +293,81 @@ type c04Req struct {
 	BodyTok    *c04Token `json:"body_tok,omitempty"`
 	Cookie     string    `json:"cookie,omitempty"` // session value: good-<sub> inactive-|expired-|notyet-|iatfuture-<sub> nosub-x unknown-x
 	XSess      string    `json:"xsess,omitempty"`
-	Sw         string    `json:"sw"` // what the switchable endpoints do during this request
+	Sw         string    `json:"sw"`             // what the switchable endpoints do during this request
+	Rule       int       `json:"rule,omitempty"` // the rule the request is handled by
+}
+
+func (c *c04Case) rules() [][]c04Authn { return append([][]c04Authn{c.Chain}, c.Others...) }
+
+func (c *c04Case) rule(k int) []c04Authn {
+	if k == 0 {
+		return c.Chain
+	}
+
+	return c.Others[k-1]
+}
+
+// number gives every step of rule 0 its own prototype (cases written without prototype sharing)
+func (c c04Case) number() c04Case {
+	if len(c.Others) == 0 {
+		c.Chain = append([]c04Authn(nil), c.Chain...)
+		for i := range c.Chain {
+			c.Chain[i].Proto = i
+		}
+	}
+
+	return c
+}
+
+// redraw: another step on the same prototype - what the prototype fixes stays, the rule-level settings are drawn again
+// (often only allow_fallback_on_error, so that two steps agree in everything else)
+func c04Redraw(r *vf.Rand, base c04Authn) c04Authn {
+	a := base
+
+	switch a.Type {
+	case "anonymous":
+		a.Subject = vf.Pick(r, []string{"", "", "guest"})
+
+		return a
+	case "unauthorized":
+		a.Override = vf.Pick(r, []string{"", "true"})
+
+		return a
+	}
+
+	a.Override = vf.Pick(r, []string{"", "true", "false"})
+
+	if r.Chance(50) {
+		return a
+	}
+
+	if (a.Type == "jwt" || a.Type == "oauth2_introspection") && a.Strict != "proto" {
+		a.Strict = vf.Pick(r, []string{"", "rule"})
+	}
+
+	if a.Type != "basic_auth" && !strings.HasPrefix(a.TTL, "proto:") {
+		a.TTL = vf.Pick(r, []string{"", "rule:0s", "rule:5m", "rule:5m"})
+	}
+
+	if a.Type == "basic_auth" {
+		a.User, a.Pass = "", ""
+		if r.Chance(30) {
+			a.User, a.Pass = "bob", "hunter2"
+		}
+	}
+
+	return a
 }
 
 type c04Case struct {
-	Chain   []c04Authn `json:"chain"`
-	Default string     `json:"default,omitempty"` // "" | ignored (a default rule with other authenticators exists) | applies (the chain IS the default rule's)
-	Entry   string     `json:"entry"`             // direct | decision | envoy
-	Steps   []c04Req   `json:"steps"`
+	Chain []c04Authn `json:"chain"` // rule 0
+	// further rules created by the same factory from the SAME prototypes (steps with equal `proto` share one):
+	// rule k is Others[k-1]
+	Others  [][]c04Authn `json:"others,omitempty"`
+	Order   []int        `json:"order,omitempty"`   // order in which the rules are created (empty: 0,1,2,..)
+	Default string       `json:"default,omitempty"` // "" | ignored (a default rule with other authenticators exists) | applies (the chain IS the default rule's)
+	Entry   string       `json:"entry"`             // direct | decision | envoy
+	Steps   []c04Req     `json:"steps"`
 }
 
 func (a c04Authn) overridesOther() bool {
@@ -560,11 +628,76 @@ func c04Gen(r *vf.Rand) c04Case {
 			a = c04GenAuthn(r)
 		}
 
+		a.Proto = i
+
+		if i > 0 && r.Chance(8) { // the same mechanism twice in one rule
+			a = c04Redraw(r, c.Chain[r.Intn(i)])
+		}
+
 		c.Chain = append(c.Chain, a)
 	}
 
+	nProto := n
+
 	if r.Chance(35) && c.Chain[n-1].Type != "anonymous" {
-		c.Chain = append(c.Chain, c04Authn{Type: "anonymous"})
+		c.Chain = append(c.Chain, c04Authn{Type: "anonymous", Proto: nProto})
+		nProto++
+	}
+
+	// further rules on the same prototypes
+	nRules := 1
+
+	switch x := r.Intn(100); {
+	case x < 5:
+		nRules = 4
+	case x < 20:
+		nRules = 3
+	case x < 50:
+		nRules = 2
+	}
+
+	for k := 1; k < nRules; k++ {
+		var (
+			all []c04Authn
+			o   []c04Authn
+		)
+
+		for _, rl := range c.rules() {
+			all = append(all, rl...)
+		}
+
+		m := 1 + r.Intn(3)
+		for i := 0; i < m; i++ {
+			if r.Chance(75) {
+				o = append(o, c04Redraw(r, vf.Pick(r, all)))
+
+				continue
+			}
+
+			a := c04GenAuthn(r)
+			a.Proto = nProto
+			nProto++
+			o = append(o, a)
+		}
+
+		if r.Chance(40) && o[len(o)-1].Type != "anonymous" {
+			o = append(o, c04Authn{Type: "anonymous", Proto: nProto})
+			nProto++
+		}
+
+		c.Others = append(c.Others, o)
+	}
+
+	if nRules > 1 { // any creation order
+		c.Order = make([]int, nRules)
+		for i := range c.Order {
+			c.Order[i] = i
+		}
+
+		for i := nRules - 1; i > 0; i-- {
+			j := r.Intn(i + 1)
+			c.Order[i], c.Order[j] = c.Order[j], c.Order[i]
+		}
 	}
 
 	switch x := r.Intn(100); {
@@ -591,6 +724,10 @@ func c04Gen(r *vf.Rand) c04Case {
 		steps = 2
 	}
 
+	if nRules > 1 && steps < nRules && r.Chance(70) {
+		steps = nRules
+	}
+
 	var pool []*c04Token
 
 	for i := 0; i < steps; i++ {
@@ -602,12 +739,21 @@ func c04Gen(r *vf.Rand) c04Case {
 				q.Sw = vf.Pick(r, c04Failing)
 			}
 
+			if nRules > 1 && r.Chance(60) { // ... or handled by another rule
+				q.Rule = r.Intn(nRules)
+				if r.Chance(50) {
+					q.Sw = c.Steps[i-1].Sw
+				}
+			}
+
 			c.Steps = append(c.Steps, q)
 
 			continue
 		}
 
-		c.Steps = append(c.Steps, c04GenReq(r, &pool))
+		q := c04GenReq(r, &pool)
+		q.Rule = r.Intn(nRules)
+		c.Steps = append(c.Steps, q)
 	}
 
 	return c
@@ -1114,19 +1260,12 @@ type c04Rec struct {
 	log   *[]c04Seen
 }
 
-func c04Pos(a any) int {
+func c04ID(a any) (string, bool) {
 	if m, ok := a.(interface{ ID() string }); ok {
-		id := m.ID()
-		if n, err := strconv.Atoi(strings.TrimLeft(id, "ad")); err == nil && len(id) > 1 {
-			if id[0] == 'a' {
-				return n
-			}
-
-			return 100 + n
-		}
+		return m.ID(), true
 	}
 
-	return 999
+	return "", false
 }
 
 func (r *c04Rec) Execute(ctx heimdall.Context) (*subject.Subject, error) {
@@ -1264,9 +1403,9 @@ func c04Step(id string, a c04Authn) config.MechanismConfig {
 }
 
 // the field of the rule object that holds the authenticators, whatever it is called: of the
-// fields of type compositeSubjectCreator the one whose first element is the mechanism "a0"
-// (or "d0" ...), else the first non-empty one
-func c04Composite(r rule.Rule) (reflect.Value, bool) {
+// fields of type compositeSubjectCreator the one whose first element is the mechanism the rule's
+// first step names, else the first non-empty one
+func c04Composite(r rule.Rule, first string) (reflect.Value, bool) {
 	v := reflect.ValueOf(r)
 	if v.Kind() != reflect.Pointer || v.Elem().Kind() != reflect.Struct {
 		return reflect.Value{}, false
@@ -1283,8 +1422,10 @@ func c04Composite(r rule.Rule) (reflect.Value, bool) {
 	}
 
 	for _, c := range cands {
-		if sc := c.Interface().(compositeSubjectCreator); len(sc) != 0 && c04Pos(sc[0]) == 0 { //nolint:forcetypeassert
-			return c, true
+		if sc := c.Interface().(compositeSubjectCreator); len(sc) != 0 { //nolint:forcetypeassert
+			if id, ok := c04ID(sc[0]); ok && id == first {
+				return c, true
+			}
 		}
 	}
 
@@ -1351,12 +1492,11 @@ func (e *c04Env) setSw(state string) {
 }
 
 func (e *c04Env) run(svc *c04Services, c *c04Case, r *vf.Rand) (obs c04Obs) {
-	var (
-		log     []c04Seen
-		wrapped compositeSubjectCreator
-		steps   []config.MechanismConfig
-		protos  []config.Mechanism
-	)
+	var log []c04Seen
+
+	rules := c.rules()
+	wrapped := make([]compositeSubjectCreator, len(rules))
+	created := make([]rule.Rule, len(rules))
 
 	svc.cch.reset()
 
@@ -1367,13 +1507,25 @@ func (e *c04Env) run(svc *c04Services, c *c04Case, r *vf.Rand) (obs c04Obs) {
 	}()
 
 	if len(c.Chain) != 0 {
-		for i, a := range c.Chain {
-			id := "a" + strconv.Itoa(i)
-			protos = append(protos, e.prototype(id, a))
-			steps = append(steps, c04Step(id, a))
-		}
+		var protos []config.Mechanism
 
-		steps = append(steps, config.MechanismConfig{"finalizer": "subj"})
+		// one prototype per index, configured as the first step naming it says
+		seen := map[int]bool{}
+		steps := make([][]config.MechanismConfig, len(rules))
+
+		for k, rl := range rules {
+			for _, a := range rl {
+				id := "p" + strconv.Itoa(a.Proto)
+				if !seen[a.Proto] {
+					seen[a.Proto] = true
+					protos = append(protos, e.prototype(id, a))
+				}
+
+				steps[k] = append(steps[k], c04Step(id, a))
+			}
+
+			steps[k] = append(steps[k], config.MechanismConfig{"finalizer": "subj"})
+		}
 
 		conf := &config.Configuration{Prototypes: &config.MechanismPrototypes{
 			Finalizers: []config.Mechanism{{ID: "subj", Type: "header", Config: config.MechanismConfig{
@@ -1391,8 +1543,8 @@ func (e *c04Env) run(svc *c04Services, c *c04Case, r *vf.Rand) (obs c04Obs) {
 			conf.Default = &config.DefaultRule{Execute: []config.MechanismConfig{
 				{"authenticator": "d0"}, {"authenticator": "d1"}, {"finalizer": "subj"},
 			}}
-		case "applies":
-			conf.Default = &config.DefaultRule{Execute: steps}
+		case "applies": // rule 0 is the default rule (created with the factory, before any other rule)
+			conf.Default = &config.DefaultRule{Execute: steps[0]}
 		}
 
 		conf.Prototypes.Authenticators = protos
@@ -1407,40 +1559,52 @@ func (e *c04Env) run(svc *c04Services, c *c04Case, r *vf.Rand) (obs c04Obs) {
 			return c04Obs{Status: "rule_rejected", Detail: "rule factory: " + err.Error()}
 		}
 
-		var rul rule.Rule
+		order := c.Order
+		if len(order) == 0 {
+			for k := range rules {
+				order = append(order, k)
+			}
+		}
 
-		if c.Default == "applies" {
-			rul = rf.DefaultRule()
-		} else {
-			rul, err = rf.CreateRule("1alpha4", "c04", config2.Rule{
-				ID:      "r",
+		for _, k := range order {
+			if k == 0 && c.Default == "applies" {
+				created[k] = rf.DefaultRule()
+
+				continue
+			}
+
+			created[k], err = rf.CreateRule("1alpha4", "c04", config2.Rule{
+				ID:      "r" + strconv.Itoa(k),
 				Matcher: config2.Matcher{Routes: []config2.Route{{Path: "/resource"}}},
-				Execute: steps,
+				Execute: steps[k],
 			})
 			if err != nil {
 				return c04Obs{Status: "rule_rejected", Detail: err.Error()}
 			}
 		}
 
-		field, ok := c04Composite(rul)
-		if !ok {
-			return c04Obs{Status: "driver", Detail: "no compositeSubjectCreator field in the rule object"}
-		}
-
-		sc := field.Interface().(compositeSubjectCreator) //nolint:forcetypeassert
-		wrapped = make(compositeSubjectCreator, len(sc))
-
-		for i, a := range sc {
-			pos := c04Pos(a)
-			if pos == 999 { // the mechanism does not tell its id: the index in the rule's list has to do
-				pos = i
+		// only now, with every rule created, the recording delegates are put in
+		for k, rul := range created {
+			field, ok := c04Composite(rul, "p"+strconv.Itoa(rules[k][0].Proto))
+			if !ok {
+				return c04Obs{Status: "driver", Detail: "no compositeSubjectCreator field in the rule object"}
 			}
 
-			wrapped[i] = &c04Rec{inner: a, pos: pos, cch: svc.cch, log: &log}
-		}
+			sc := field.Interface().(compositeSubjectCreator) //nolint:forcetypeassert
+			wrapped[k] = make(compositeSubjectCreator, len(sc))
 
-		field.Set(reflect.ValueOf(wrapped))
-		svc.cur = rul
+			for i, a := range sc {
+				// position = index in the rule's list, provided the mechanism there is the configured one
+				pos := i
+				if id, ok := c04ID(a); ok && (i >= len(rules[k]) || id != "p"+strconv.Itoa(rules[k][i].Proto)) {
+					pos = 100 + i
+				}
+
+				wrapped[k][i] = &c04Rec{inner: a, pos: pos, cch: svc.cch, log: &log}
+			}
+
+			field.Set(reflect.ValueOf(wrapped[k]))
+		}
 	}
 
 	obs.Status = "ok"
@@ -1449,6 +1613,7 @@ func (e *c04Env) run(svc *c04Services, c *c04Case, r *vf.Rand) (obs c04Obs) {
 		q := &c.Steps[i]
 		w := e.wire(q, r)
 		e.setSw(q.Sw)
+		svc.cur = created[q.Rule]
 
 		log = nil
 
@@ -1459,7 +1624,7 @@ func (e *c04Env) run(svc *c04Services, c *c04Case, r *vf.Rand) (obs c04Obs) {
 			req := w.httpRequest()
 			req = req.WithContext(cache.WithContext(req.Context(), svc.cch))
 
-			sub, err := wrapped.Execute(requestcontext.New(req))
+			sub, err := wrapped[q.Rule].Execute(requestcontext.New(req))
 
 			switch {
 			case err != nil:
@@ -1521,11 +1686,12 @@ func (e *c04Env) run(svc *c04Services, c *c04Case, r *vf.Rand) (obs c04Obs) {
 func c04UnexpectedTimeout(c *c04Case, o c04Obs) bool {
 	for i, so := range o.Steps {
 		for _, s := range so.Seen {
-			if s.Kind != "timeout" || s.Pos >= len(c.Chain) {
+			chain := c.rule(c.Steps[i].Rule)
+			if s.Kind != "timeout" || s.Pos >= len(chain) {
 				continue
 			}
 
-			a := c.Chain[s.Pos]
+			a := chain[s.Pos]
 			if a.Remote == "slow" || a.Disc == "meta:slow" || (a.Remote == "sw" && c.Steps[i].Sw == "slow") {
 				continue
 			}
@@ -1812,15 +1978,15 @@ func c04CoqStep(q c04Req, o c04StepObs) string {
 		e2e = "(E2Ok (Some " + vf.CoqStr(*o.E2E.Subject) + "))"
 	}
 
-	return vf.CoqApp("stp", c04CoqReq(q), vf.CoqListOf(o.Seen, c04CoqSeen), res, e2e)
+	return vf.CoqApp("stp", vf.CoqNat(q.Rule), c04CoqReq(q), vf.CoqListOf(o.Seen, c04CoqSeen), res, e2e)
 }
 
 func c04Coq(c c04Case, o c04Obs) string {
-	chain := vf.CoqListOf(c.Chain, c04CoqAuthn)
+	chain := vf.CoqListOf(c.rules(), func(rl []c04Authn) string { return vf.CoqListOf(rl, c04CoqAuthn) })
 
 	if o.Status != "ok" || len(o.Steps) != len(c.Steps) {
 		// a rejected rule or a panic is no answer of the composite: render an observation no model run produces
-		return vf.CoqApp("cs", chain, "[stp "+c04CoqReq(c.Steps[0])+" [sn 999%nat false LMiss (Failed (EOther KConfig))] (RError (EOther KConfig)) E2None]")
+		return vf.CoqApp("cs", chain, "[stp 0%nat "+c04CoqReq(c.Steps[0])+" [sn 999%nat false LMiss (Failed (EOther KConfig))] (RError (EOther KConfig)) E2None]")
 	}
 
 	var steps []string
@@ -1841,7 +2007,39 @@ func c04Tags(c c04Case, o c04Obs) []string {
 		tags = append(tags, "rerun:unexpected-timeout")
 	}
 
-	for _, a := range c.Chain {
+	tags = append(tags, fmt.Sprintf("rules:%d", 1+len(c.Others)))
+
+	shared := map[int]map[string]bool{} // prototype -> the flag overrides of the steps naming it
+	for _, rl := range c.rules() {
+		for _, a := range rl {
+			if shared[a.Proto] == nil {
+				shared[a.Proto] = map[string]bool{}
+			}
+
+			shared[a.Proto][a.Override] = true
+		}
+	}
+
+	for pi, ovs := range shared {
+		if len(ovs) > 1 {
+			for _, rl := range c.rules() {
+				for _, a := range rl {
+					if a.Proto == pi {
+						tags = append(tags, "shared-prototype-with-differing-flag:"+a.Type)
+
+						break
+					}
+				}
+			}
+		}
+	}
+
+	var all []c04Authn
+	for _, rl := range c.rules() {
+		all = append(all, rl...)
+	}
+
+	for _, a := range all {
 		if a.Disc != "" {
 			tags = append(tags, "conf:disc:"+a.Disc)
 		}
@@ -1869,6 +2067,7 @@ func c04Tags(c c04Case, o c04Obs) []string {
 
 	for i, so := range o.Steps {
 		q := c.Steps[i]
+		chain := c.rule(q.Rule)
 		for _, t := range []*c04Token{q.AuthTok, q.XTok, q.QueryTok, q.BodyTok} {
 			if t != nil {
 				tags = append(tags, "tok:jwt:"+t.JWT, "tok:intro:"+t.Intro)
@@ -1884,12 +2083,12 @@ func c04Tags(c c04Case, o c04Obs) []string {
 				k = "accepted"
 			}
 
-			if s.Pos < len(c.Chain) {
-				tags = append(tags, "site:"+c.Chain[s.Pos].Type+"->"+k)
+			if s.Pos < len(chain) {
+				tags = append(tags, "site:"+chain[s.Pos].Type+"->"+k)
 			}
 
-			if s.Hit != "" && s.Pos < len(c.Chain) {
-				tags = append(tags, "cache-"+s.Hit+":"+c.Chain[s.Pos].Type)
+			if s.Hit != "" && s.Pos < len(chain) {
+				tags = append(tags, "cache-"+s.Hit+":"+chain[s.Pos].Type)
 			}
 
 			if j < len(so.Seen)-1 {
@@ -1902,10 +2101,10 @@ func c04Tags(c c04Case, o c04Obs) []string {
 		}
 
 		if n := len(so.Seen); n > 0 && so.Seen[n-1].Err != "" {
-			if n < len(c.Chain) {
+			if n < len(chain) {
 				tags = append(tags, "break:blocked-before-end")
 
-				for _, a := range c.Chain[n:] {
+				for _, a := range chain[n:] {
 					if a.Type == "anonymous" {
 						tags = append(tags, "break:anonymous-behind-not-reached")
 
@@ -1932,12 +2131,12 @@ func c04Tags(c c04Case, o c04Obs) []string {
 // non-trivial: at least two authenticators in the chain and, for some request, the first
 // consulted one did not accept (so the continue/break decision was taken at least once)
 func c04Nontrivial(c c04Case, o c04Obs) bool {
-	if o.Status != "ok" || len(c.Chain) < 2 {
+	if o.Status != "ok" {
 		return false
 	}
 
-	for _, so := range o.Steps {
-		if len(so.Seen) >= 1 && so.Seen[0].Err != "" {
+	for i, so := range o.Steps {
+		if len(c.rule(c.Steps[i].Rule)) >= 2 && len(so.Seen) >= 1 && so.Seen[0].Err != "" {
 			return true
 		}
 	}
@@ -1960,6 +2159,16 @@ func c04Corpus() []c04Case {
 	one := func(entry string, q c04Req, chain ...c04Authn) c04Case {
 		return c04Case{Chain: chain, Entry: entry, Steps: []c04Req{q}}
 	}
+	// two rules [a, anonymous] and [b, anonymous] where a and b are steps on ONE prototype; the request goes to both
+	shared := func(entry string, order []int, q c04Req, a, b c04Authn) c04Case {
+		a.Proto, b.Proto = 0, 0
+		an := c04Authn{Type: "anonymous", Proto: 1}
+		q0, q1 := q, q
+		q0.Rule, q1.Rule = 0, 1
+
+		return c04Case{Chain: []c04Authn{a, an}, Others: [][]c04Authn{{b, an}}, Order: order, Entry: entry, Steps: []c04Req{q1, q0, q1}}
+	}
+	badSess := c04Req{Auth: "absent", Body: "none:nobody", Cookie: "unknown-x", Sw: "up"}
 	valid := bearer("valid", "active", "up")
 	validDown := valid
 	validDown.Sw = "down"
@@ -2011,6 +2220,13 @@ func c04Corpus() []c04Case {
 		one("direct", bearer("assertfail:noiss", "active", "up"), jwtA, anon),
 		one("decision", bearer("notjws:opaque", "assertfail:noiss", "up"), jwtA, intro, anon),
 		one("envoy", bearer("assertfail:emptyiss", "assertfail:iat-future", "up"), intro, anon),
+		// seeded round 5: several rules on one set of prototypes; the flag of a step is its own, in either creation order
+		shared("direct", []int{0, 1}, badSess, c04Authn{Type: "generic", Remote: "up", TTL: "rule:5m", Override: "true"}, c04Authn{Type: "generic", Remote: "up", TTL: "rule:5m"}),
+		shared("decision", []int{1, 0}, badSess, c04Authn{Type: "generic", Remote: "up", TTL: "rule:5m", Override: "true"}, c04Authn{Type: "generic", Remote: "up", TTL: "rule:5m"}),
+		shared("envoy", []int{0, 1}, badSess, c04Authn{Type: "generic", Remote: "up", TTL: "proto:5m", ProtoFB: true, Override: "false"}, c04Authn{Type: "generic", Remote: "up", TTL: "proto:5m", ProtoFB: true}),
+		shared("direct", []int{1, 0}, bearer("badsig:flip", "inactive", "up"), c04Authn{Type: "jwt", Remote: "up", Strict: "rule", Override: "true"}, c04Authn{Type: "jwt", Remote: "up", Strict: "rule", Override: "false"}),
+		shared("direct", []int{0, 1}, bearer("badsig:flip", "inactive", "up"), c04Authn{Type: "oauth2_introspection", Remote: "up", TTL: "rule:0s", Override: "true"}, c04Authn{Type: "oauth2_introspection", Remote: "up", TTL: "rule:0s"}),
+		shared("decision", []int{0, 1}, wrongPw, c04Authn{Type: "basic_auth", Override: "true"}, c04Authn{Type: "basic_auth", User: "bob", Pass: "hunter2"}),
 		// a payload cached by an instance without session_lifespan is asserted by the one with it (fix abc25e7)
 		{Chain: []c04Authn{{Type: "generic", Remote: "up", Lifespan: true, TTL: "rule:5m", ProtoFB: true}, {Type: "generic", Remote: "up", TTL: "rule:5m"}},
 			Entry: "direct", Steps: []c04Req{inactiveSess, inactiveSess}},
@@ -2056,7 +2272,7 @@ func TestVerifC04(t *testing.T) {
 	}
 
 	for i := range c04Corpus() {
-		emit("corpus", func() (c04Case, *vf.Rand) { return c04Corpus()[i], root.Fork(uint64(1_000_000 + i)) })
+		emit("corpus", func() (c04Case, *vf.Rand) { return c04Corpus()[i].number(), root.Fork(uint64(1_000_000 + i)) })
 	}
 
 	for i := 0; i < n; i++ {
